@@ -65,6 +65,10 @@ def regenerate(repo, coq_dir):
                     raise ValueError(f'generate() of {pid} writes outside Gen/: {rel}')
                 texts[rel] = text
         except Exception as e:  # noqa
+            # fail closed: whatever this hook generated last time must not survive (list it in GENERATED_FILES)
+            for rel in getattr(mod, 'GENERATED_FILES', ()):
+                if rel.startswith('Gen/'):
+                    texts[rel] = f'(* BROKEN: generate() of {pid} failed: {type(e).__name__}: {str(e)[:300]} *)\n'
             broken.append(({'coq': f'{pid}.generate', 'module': f'props/{pid.lower()}.py', 'function': 'generate', 'owner': pid},
                            f'{type(e).__name__}: {e}'))
     for out, text in texts.items():
